@@ -672,6 +672,63 @@ def batch_order_case(case):
     return 9
 
 
+def helpers_case(case):
+    """Strictly sequential histories in which some registrations / removals are ISSUED from helper threads (a thread-pool
+    callback that is waited for before the next operation): who makes the call has no bearing on the order."""
+    import threading
+    from mc.engine.seams import reset_library
+    reset_library()
+    m = new_model(seed=1)
+    log = []
+
+    class R(Core.System):
+        def execute(self):
+            log.append(self.id)
+    ref = []          # (id, priority) in registration order
+
+    def via(who, fn, *args):
+        if who == 'main':
+            return fn(*args)
+        err = []
+
+        def work():
+            try:
+                fn(*args)
+            except BaseException as e:      # noqa - re-raised below
+                err.append(e)
+        t = threading.Thread(target=work, name=who)
+        t.start()
+        t.join()
+        if err:
+            raise err[0]
+    n = 0
+    for i, (op, prio, who) in enumerate(case['ops']):
+        if op == 'add':
+            sid = f's{i}'
+            via(who, m.systems.add_system, R(sid, m, priority=prio))
+            ref.append((sid, prio))
+        elif ref:
+            gone = ref.pop(prio % len(ref))
+            via(who, m.systems.remove_system, gone[0])
+        del log[:]
+        m.execute()
+        n += 1
+        exp = [sid for sid, _ in sorted(ref, key=lambda r: -r[1])]
+        if log != exp:
+            raise Violation(f'after operation {i} ({op} priority/index {prio} issued from {who}): order of execution',
+                            expected=exp, observed=list(log))
+    return n
+
+
+def helpers_cases(tier):
+    import itertools
+    whos = ('main', 'helper-1', 'helper-2')
+    alphabet = [('add', p, w) for p in (0, 1) for w in whos] + [('rm', 1, 'main'), ('rm', 0, 'helper-1')]
+    for n in (1, 2, 3, 4) if tier == 'quick' else (1, 2, 3, 4, 5):
+        for ops in itertools.product(alphabet, repeat=n):
+            yield {'leg': 'helpers', 'ops': [list(o) for o in ops]}
+
+
 def bg_peek(bg):
     """True if the side process has already reported a violation (the message stays in `bg` for the collector)."""
     if len(bg) == 3:
@@ -751,6 +808,19 @@ def _run(ctx):
             except Violation as v:
                 ctx.report(case, v)
                 return
+    nh = 0
+    for case in helpers_cases(ctx.tier if not ctx.small else 'small'):
+        if ctx.small and len(case['ops']) > 2:
+            break
+        ctx.traces += 1
+        nh += 1
+        try:
+            ctx.transitions += hbfs._guard(helpers_case, case)
+        except Violation as v:
+            ctx.report(case, v)
+            return
+    ctx.leg('helpers', histories=nh, note='every history of <= 4 (thorough 5) registrations / removals issued from the main '
+                                          'thread or one of two helper threads (sequentially), a timestep after each')
     for order in (0, 1, 2):
         case = {'leg': 'batch_order', 'order': order}
         ctx.traces += 1
@@ -871,6 +941,9 @@ def replay(case):
         return
     if case['leg'] == 'batch_order':
         hbfs._guard(batch_order_case, case)
+        return
+    if case['leg'] == 'helpers':
+        hbfs._guard(helpers_case, case)
         return
     if case['leg'] == 'clone':
         hbfs._guard(clone_case, case)
